@@ -21,7 +21,9 @@ RULE = ("histories over {init job, remove job, re-key job (statepoint setter), u
         "object), delete cache file, query through the current session, misname a job directory (corruption)} on a "
         "universe of 5 state points (incl. the empty state point {}): directed scenarios (the former F9 witnesses, poisoning attempts), bounded-exhaustive "
         "histories over a 9-letter alphabet on 2 jobs appended to two start states (empty project / two jobs with a "
-        "fresh cache file in a new session) up to length 2 (quick) or 4 (thorough), and seeded random histories of "
+        "fresh cache file in a new session) up to length 2 (quick) or 4 (thorough) — plus, at length 2, the letters "
+        "update_statepoint through a handle reached by id / by iteration and init / remove by ANOTHER session while the "
+        "current one lives on —, and seeded random histories (all of these operations, re-key by id also through iteration handles) of "
         "length <= 40.  After every observed step a fresh Project is observed twice (cache file in place / moved "
         "away): find_jobs(filter), len, ids by iteration, open_job(id=i).statepoint() for every listed directory, and "
         "open_job(id=p) + statepoint() for 10 abbreviated ids p (too short, shared by 3 / 2 universe ids, unique, no match); the "
@@ -42,6 +44,11 @@ EXHAUSTIVE = {"quick": False, "thorough": True}
 # u5 holds TUPLES (valid input, stored as lists): whatever the cache serves must be the stored value, not the caller's
 UNIV = [{"a": 0, "b": 0}, {"a": 1, "b": 123}, {"b": {"c": 2}, "a": 0}, {"a": 1, "b": [1, 1]}, {},
         {"a": 0, "t": (1, (2, 3))}]
+# the same values with the key order reversed: update_statepoint keeps the key order of the OLD state point, so a
+# job re-keyed from u2 (keys b, a) to the value of u0 stores '{"b": 0, "a": 0}' — same id as u0, another file text
+UNIVX = [dict(reversed(list(u.items()))) for u in UNIV[:4]]
+# update_statepoint can only add or overwrite keys: (old, update) pairs whose merge is a universe value again
+UPD_PAIRS = ([(a, b) for a in range(4) for b in range(5)] + [(4, b) for b in range(6)] + [(5, 4), (5, 5)])
 SCALE = 2001      # > 2000 uncached jobs and not divisible by the chunk number of _update_in_memory_cache
 # abbreviated ids opened in every observation: too short (""), shared by 3 / 2 ids, unique ones, no match
 ABBREVS = ["", "7", "7f", "7f9", "7f8", "70", "b", "b1b", "9", "e"]
@@ -55,6 +62,11 @@ def _alphabet2():
     a, b = 0, 1
     return [["init", a], ["init", b], ["remove", a], ["remove", b], ["rekey", a, b], ["update"], ["restart"],
             ["delcache"], ["query"]]
+
+
+# quick only (depth 2): update_statepoint through a handle reached by id, and a job created by another session
+def _alphabet2x():
+    return _alphabet2() + [["updid", 0, 1], ["updid", 1, 0, "iter"], ["xinit", 0], ["xremove", 1]]
 
 
 PREFIXES = [[], [["init", 0], ["init", 1], ["update"], ["restart"]]]
@@ -89,6 +101,17 @@ DIRECTED = [
     [["init", 0], ["update"], ["restart"], ["query"], ["rekeyid", 0, 2], ["query"], ["update"], ["query"], ["restart"], ["query"]],
     [["init", 0], ["init", 1], ["query"], ["rekeyid", 0, 1], ["query"], ["rekeyid", 2, 3], ["query"]],
     [["init", 0], ["query"], ["remove", 0], ["rekeyid", 0, 1], ["query"], ["update"], ["query"]],
+    # update_statepoint through a handle reached BY ID / BY ITERATION must work on a copy, never on the dict the session
+    # cache holds under the old id (seeded C08-11): (A) the re-key is rejected, the old id keeps existing;
+    # (B) the re-key succeeds and ANOTHER session creates the old state point again while this session lives on
+    [["init", 0], ["init", 1], ["restart"], ["updid", 0, 1], ["query"], ["update"], ["query"], ["restart"], ["query"], ["delcache"], ["query"]],
+    [["init", 0], ["init", 1], ["update"], ["restart"], ["updid", 0, 1, "iter"], ["query"], ["update"], ["update"], ["restart"], ["query"]],
+    [["init", 0], ["restart"], ["updid", 0, 1, "iter"], ["xinit", 0], ["query"], ["update"], ["query"], ["restart"], ["query"]],
+    [["init", 2], ["update"], ["restart"], ["updid", 2, 0], ["xinit", 2], ["query"], ["update"], ["update"], ["restart"], ["query"], ["updid", 0, 3], ["query"]],
+    [["init", 4], ["init", 3], ["query"], ["updid", 4, 3], ["query"], ["updid", 4, 5, "iter"], ["query"], ["xinit", 4], ["query"], ["update"], ["restart"], ["query"]],
+    [["init", 0], ["init", 1], ["query"], ["rekeyid", 0, 1, "iter"], ["query"], ["xremove", 1], ["query"], ["rekeyid", 0, 1, "iter"], ["xinit", 0], ["query"], ["update"], ["query"]],
+    # another session changes the workspace while this one lives on
+    [["init", 0], ["update"], ["query"], ["xremove", 0], ["query"], ["xinit", 1], ["query"], ["update"], ["update"], ["xinit", 0], ["query"]],
     # stale in-memory entries
     [["init", 0], ["init", 1], ["query"], ["remove", 0], ["query"], ["rekey", 1, 2], ["query"], ["update"], ["update"], ["restart"], ["query"]],
     [["init", 0], ["rekey", 0, 0], ["rekey", 0, 1], ["rekey", 1, 1], ["rekey", 2, 3], ["update"], ["restart"], ["rekey", 1, 0], ["init", 1], ["rekey", 0, 1], ["update"], ["update"]],
@@ -109,9 +132,13 @@ def _rand_history(rng, n):
             steps.append(["remove", rng.randrange(len(UNIV))])
         elif r < 0.43:
             steps.append(["rekey", rng.randrange(len(UNIV)), rng.randrange(len(UNIV))])
-        elif r < 0.50:
-            steps.append(["rekeyid", rng.randrange(len(UNIV)), rng.randrange(len(UNIV))])
-        elif r < 0.66:
+        elif r < 0.47:
+            steps.append(["rekeyid", rng.randrange(len(UNIV)), rng.randrange(len(UNIV))] + (["iter"] if rng.random() < 0.5 else []))
+        elif r < 0.54:
+            steps.append(["updid"] + list(rng.choice(UPD_PAIRS)) + (["iter"] if rng.random() < 0.5 else []))
+        elif r < 0.59:
+            steps.append([rng.choice(["xinit", "xinit", "xremove"]), rng.randrange(len(UNIV))])
+        elif r < 0.70:
             steps.append(["update"])
         elif r < 0.79:
             steps.append(["restart"])
@@ -139,6 +166,10 @@ def gen_inputs(tier, rng):
                 if n < depth:      # shorter histories are prefixes of the maximal ones (every step is observed)
                     continue
                 descs.append({"pre": pre, "steps": [list(x) for x in h], "filter": ["a", 0]})
+    for pre in PREFIXES:       # the wider alphabet, depth 2, in both tiers
+        for h in itertools.product(_alphabet2x(), repeat=2):
+            if any(x[0] in ("updid", "xinit", "xremove") for x in h):
+                descs.append({"pre": pre, "steps": [list(x) for x in h] + [["query"]], "filter": ["a", 0]})
     for i in range(nrand):
         n = rng.choice([6, 10, 16, 24, 40]) if tier == "quick" else rng.randint(5, 40)
         descs.append({"pre": [], "steps": _rand_history(rng, n), "filter": ["a", rng.randrange(2)]})
@@ -224,6 +255,16 @@ def read_cache_file(root):
     return [[k, typed(v)] for k, v in d.items()]
 
 
+def _handle(project, i, by_iteration):
+    """a handle reached BY ID: project.open_job(id=i), or - when asked for and the id is listed - the handle that
+    iterating over the project yields for it (both are Job(project, id_=i) objects sharing the session cache's dict)"""
+    if by_iteration:
+        for j in project:
+            if j.id == i:
+                return j
+    return project.open_job(id=i)
+
+
 def run_history(root, desc):
     import signac
 
@@ -231,7 +272,7 @@ def run_history(root, desc):
     signac.init_project(path=root)
     ws = os.path.join(root, "workspace")
     os.makedirs(ws, exist_ok=True)
-    texts = {json.dumps(u).encode() for u in UNIV}
+    texts = {json.dumps(u).encode() for u in UNIV + UNIVX}
     observed = not desc.get("scale")
     flt = desc["filter"]
     project = signac.Project(root)
@@ -250,9 +291,18 @@ def run_history(root, desc):
             ret = _res(_rk)
         elif kind == "rekeyid":
             def _rki():
-                j = project.open_job(id=_calc_id(UNIV[op[1]]))
+                j = _handle(project, _calc_id(UNIV[op[1]]), op[3:] == ["iter"])
                 j.statepoint = copy.deepcopy(UNIV[op[2]])
             ret = _res(_rki)
+        elif kind == "updid":
+            def _upi():
+                j = _handle(project, _calc_id(UNIV[op[1]]), op[3:] == ["iter"])
+                j.update_statepoint(copy.deepcopy(UNIV[op[2]]), overwrite=True)
+            ret = _res(_upi)
+        elif kind == "xinit":      # another session, while `project` lives on
+            ret = _res(lambda: signac.Project(root).open_job(copy.deepcopy(UNIV[op[1]])).init() and None)
+        elif kind == "xremove":
+            ret = _res(lambda: signac.Project(root).open_job(copy.deepcopy(UNIV[op[1]])).remove())
         elif kind == "plant":
             for n in range(op[1]):
                 d = os.path.join(ws, _calc_id({"i": n}))
@@ -377,6 +427,12 @@ class Emit:
             return f"(HMisname {u(op[1])} {u(op[2])})"
         if k == "rekeyid":
             return f"(HRekeyId {u(op[1])} {u(op[2])})"
+        if k == "updid":
+            return f"(HUpdId {u(op[1])} {u(op[2])})"
+        if k == "xinit":
+            return f"(HXInit {u(op[1])})"
+        if k == "xremove":
+            return f"(HXRemove {u(op[1])})"
         if k == "plant":
             return f"(HPlant plant_{op[1]})"
         if k == "file":
@@ -400,7 +456,9 @@ def run_case(desc):
     E = Emit()
     prelude = [(f"u8_{n}", f"Definition u8_{n} : json := {coq_json(u)}.") for n, u in enumerate(UNIV)]
     prelude.append(("univ8", "Definition univ8 : list json := [%s]." % "; ".join(f"u8_{n}" for n in range(len(UNIV)))))
-    prelude.append(("tab8u", "Definition tab8u : list (list N * json) := map (fun v => (dumps (ftab_lookup []) v, v)) univ8."))
+    prelude += [(f"u8x_{n}", f"Definition u8x_{n} : json := {coq_json(u)}.") for n, u in enumerate(UNIVX)]
+    prelude.append(("univ8x", "Definition univ8x : list json := [%s]." % "; ".join(f"u8x_{n}" for n in range(len(UNIVX)))))
+    prelude.append(("tab8u", "Definition tab8u : list (list N * json) := map (fun v => (dumps (ftab_lookup []) v, v)) (univ8 ++ univ8x)."))
     prelude.append(("uids8", "Definition uids8 : list str := %s." % coq_list([E.id(i) for i in UIDS()], "str")))
     prelude.append(("pres8", "Definition pres8 : list str := %s." % coq_list([coq_str(p) for p in ABBREVS], "str")))
     tab, uids, pres = "tab8u", "uids8", "pres8"
@@ -428,7 +486,7 @@ def run_case(desc):
             if changed:
                 nontriv = True
             seen_update = True
-        elif o in ("init", "remove", "rekey", "rekeyid", "misname", "plant") and seen_update:
+        elif o in ("init", "remove", "rekey", "rekeyid", "updid", "xinit", "xremove", "misname", "plant") and seen_update:
             changed = True
         elif o == "restart" and changed:
             nontriv = True
